@@ -94,6 +94,7 @@ type gen struct {
 	unsupported []string
 	inlineDepth int
 	isInline bool
+	ghostSetsApplied int
 	rets     []inlineRet
 	fnKey    string
 	closureMap map[string]*ssa.MakeClosure
@@ -402,7 +403,13 @@ func (g *gen) analyseLoops() error {
 	for _, li := range g.loops {
 		hs = append(hs, li)
 	}
-	sort.Slice(hs, func(i, j int) bool { return g.loopPos(hs[i]) < g.loopPos(hs[j]) })
+	sort.Slice(hs, func(i, j int) bool {
+		pi, pj := g.loopPos(hs[i]), g.loopPos(hs[j])
+		if pi != pj {
+			return pi < pj
+		}
+		return hs[i].header.Index < hs[j].header.Index
+	})
 	for i, li := range hs {
 		li.ordinal = i + 1
 	}
@@ -414,7 +421,10 @@ func (g *gen) loopPos(li *loopInfo) token.Pos {
 	best := token.Pos(1 << 60)
 	for b := range li.body {
 		for _, in := range b.Instrs {
-			if _, ok := in.(*ssa.DebugRef); ok {
+			switch in.(type) {
+			case *ssa.DebugRef, *ssa.Phi:
+				// a lifted phi carries the position of the variable's declaration, which is outside the loop
+				// (and shared by every loop that updates the variable): not a position of this loop
 				continue
 			}
 			if p := in.Pos(); p.IsValid() && p < best {
